@@ -70,7 +70,14 @@ CheckBegin(e, post) ==
   \cup (IF \A d \in Range(disp) : (d.status = PREVOTE /\ d.endn \prec e.tn) => (Has(post, d.id) /\ ById(post, d.id).status = FAILED)
         THEN {} ELSE {"ExpiredPrevoteDisputeFails"})
 
+\* a jail term runs its time: while a reporter stays jailed its release time is never moved to an earlier moment (a second,
+\* lighter dispute must not cut the ten minutes of a minor one short)
+JailTermKept(e) ==
+  LET r2 == e.post.reporter.reporters IN
+  IF \A r \in DOMAIN reps : (r \in DOMAIN r2 /\ reps[r].jailed /\ r2[r].jailed) => reps[r].until \preceq r2[r].until
+  THEN {} ELSE {"JailTermIsNeverCutShort"}
 Check(e) ==
+  JailTermKept(e) \cup
   LET post == e.post.dispute.disputes IN
   IF e.ev \in {"ProposeDispute", "AddFeeToDispute"} /\ e.ok /\ Range(post) # {} /\ FundedNow(e, post) THEN CheckFunding(e, post)
   ELSE IF e.ev = "BeginBlock" /\ e.ok THEN CheckBegin(e, post)
